@@ -533,6 +533,74 @@ def slots(rng):
     return {"cfg": cfg, "ops": ops}
 
 
+def bigclaim(rng):
+    """A large inbound HTLC is claimed (or failed) while the other side's update_add_htlc / update_fee crosses
+    the removal on the wire (C01: both sides agree on balances and affordability while a removal is
+    acknowledged on one side only)."""
+    value = rng.choice([100000, 1000000])
+    cfg = {"nodes": 2, "chan_type": rng.choice(TYPES), "value": value,
+           "push": rng.choice([0, 0, value * 100, value * 300]), "feerate": rng.choice([253, 1000])}
+    payer = rng.choice([0, 0, 1])
+    payee = 1 - payer
+    ops = []
+    npay = 0
+    for _ in range(rng.choice([1, 1, 2])):
+        ops.append({"op": "send", "from": payer, "to": payee, "amt": rng.choice(["limit", "half", "half", "big"])})
+        npay += 1
+        ops.append({"op": "deliver_all"})
+    if payer == 1 and cfg["push"] == 0:
+        ops = [{"op": "send", "from": 0, "to": 1, "amt": "half"}, {"op": "deliver_all"}, {"op": "claim", "pay": 0}, {"op": "deliver_all"}] + \
+              [dict(o) for o in ops]
+        npay += 1
+    first = npay - 1
+    ops.append({"op": "claim" if rng.random() < 0.8 else "fail", "pay": first})
+    ops += [{"op": "deliver", "from": payee, "to": payer}] * rng.choice([0, 0, 1])
+    for _ in range(rng.choice([1, 1, 2])):
+        r = rng.random()
+        if r < 0.5:
+            ops.append({"op": "send", "from": payer, "to": payee, "amt": rng.choice(["limit", "big", "justabove", "half"])}); npay += 1
+        elif r < 0.8:
+            ops.append({"op": "fee", "node": 0, "feerate": rng.choice([500, 1000, 2500, 5000, 10000])})
+        else:
+            ops.append({"op": "send", "from": payee, "to": payer, "amt": rng.choice(["limit", "big", "justabove"])}); npay += 1
+    ops += _deliveries(rng, [(0, 1), (1, 0)], rng.randrange(0, 6))
+    ops += [{"op": "reconnect", "a": 0, "b": 1}, {"op": "deliver_all"}]
+    for k in range(npay):
+        ops.append({"op": "claim" if rng.random() < 0.6 else "fail", "pay": k})
+    ops += [{"op": "reconnect", "a": 0, "b": 1}, {"op": "deliver_all"}, {"op": "proj", "final": True}]
+    return {"cfg": cfg, "ops": ops}
+
+
+def dustclose(rng):
+    """Cooperative close with a final balance at, just below or just above the dust limit on either side (C01:
+    both sides build the same closing transaction; the outputs are each side's irrevocable balance)."""
+    value = rng.choice([100000, 1000000])
+    edge = rng.choice([353, 354, 354, 354, 355, 330, 546, 1000])
+    cfg = {"nodes": 2, "chan_type": rng.choice(TYPES), "value": value, "push": 0, "feerate": 253}
+    ops = []
+    npay = 0
+    how = rng.random()
+    if how < 0.4:
+        cfg["push"] = edge * 1000                     # the fundee's balance from the start
+    elif how < 0.8:
+        ops += [{"op": "send", "from": 0, "to": 1, "amt": edge * 1000}, {"op": "deliver_all"}, {"op": "claim", "pay": 0}, {"op": "deliver_all"}]
+        npay += 1
+    else:
+        cfg["push"] = value * 500
+        ops += [{"op": "send", "from": 0, "to": 1, "amt": rng.choice([edge * 1000, 1000, 5000])}, {"op": "deliver_all"},
+                {"op": "claim", "pay": 0}, {"op": "deliver_all"}]
+        npay += 1
+    if rng.random() < 0.3:
+        ops += [{"op": "send", "from": rng.choice([0, 1]), "to": 0, "amt": rng.choice([1000, 2000, 1])}]
+        ops[-1]["to"] = 1 - ops[-1]["from"]
+        npay += 1
+        ops += [{"op": "deliver_all"}, {"op": "claim" if rng.random() < 0.5 else "fail", "pay": npay - 1}, {"op": "deliver_all"}]
+    ops.append({"op": "proj", "final": True})
+    a = rng.choice([0, 1])
+    ops += [{"op": "close", "a": a, "b": 1 - a}, {"op": "deliver_all"}]
+    return {"cfg": cfg, "ops": ops}
+
+
 def stalehold(rng):
     """A - B - C.  A forward (or B's own payment) waits in the holding cell of B-C (B is waiting for C's
     revoke_and_ack) when B's manager is written; B-C's monitor then moves on without freeing the holding
@@ -627,7 +695,7 @@ def evhold(rng):
     return {"cfg": _cfg(rng, n), "ops": ops}
 
 
-FAMILIES = {"slots": slots, "asynccross": asynccross, "blockedjump": blockedjump, "feecross": feecross, "opendisc": opendisc, "chainsettle": chainsettle, "crosslimit": crosslimit, "evhold": evhold, "failwin": failwin, "fanin": fanin, "inflight": inflight, "holdcell": holdcell, "stalehold": stalehold}
+FAMILIES = {"bigclaim": bigclaim, "dustclose": dustclose, "slots": slots, "asynccross": asynccross, "blockedjump": blockedjump, "feecross": feecross, "opendisc": opendisc, "chainsettle": chainsettle, "crosslimit": crosslimit, "evhold": evhold, "failwin": failwin, "fanin": fanin, "inflight": inflight, "holdcell": holdcell, "stalehold": stalehold}
 
 
 def make(rng, family, count):
